@@ -519,12 +519,16 @@ func acyclic(n int, edge func(i, j int) bool) bool {
 // smallCase: n identities, bit (i*n+j) of edges = "identity i has base j", identity k declared in
 // root (assign>>k)&1, layout 0 = two modules importing each other, 1 = module + included
 // submodule; naming 0 = distinct names (not in index order), 1 = equal names across the two modules.
-func smallCase(n int, edges uint32, assign, layout, naming int) tcase {
+func smallCase(n int, edges uint32, assign, layout, naming, samePrefix int) tcase {
 	var roots []*gRoot
 	if layout == 0 {
 		roots = []*gRoot{
 			{Name: "ma", Prefix: "a", Imports: []gImport{{Name: "mb", Prefix: "pb"}}},
 			{Name: "mb", Prefix: "b", Imports: []gImport{{Name: "ma", Prefix: "pa"}}},
+		}
+		if samePrefix == 1 {
+			// legal: a prefix only has to be unique among the prefixes one module uses
+			roots[1].Prefix = "a"
 		}
 	} else {
 		roots = []*gRoot{
@@ -566,7 +570,7 @@ func smallCase(n int, edges uint32, assign, layout, naming int) tcase {
 	}
 	// one identityref leaf, declared where the last identity is, pointing at identity 0
 	roots[where[n-1]].Leaves = []gLeaf{{Name: "ref", Base: ref(n-1, 0), HasBase: true}}
-	return tcase{Tag: fmt.Sprintf("small n=%d edges=%#x assign=%d layout=%d naming=%d", n, edges, assign, layout, naming),
+	return tcase{Tag: fmt.Sprintf("small n=%d edges=%#x assign=%d layout=%d naming=%d sameOwnPrefix=%d", n, edges, assign, layout, naming, samePrefix),
 		Files: filesOf(roots), Runs: 3}
 }
 
@@ -589,7 +593,11 @@ func enumerateSmall(maxAll, maxDag int, sample func() bool) []tcase {
 						if n == maxDag && sample != nil && !sample() {
 							continue
 						}
-						out = append(out, smallCase(n, edges, assign, layout, naming))
+						out = append(out, smallCase(n, edges, assign, layout, naming, 0))
+						if layout == 0 && (naming == 1 || n <= maxAll) {
+							// both modules declare the same own prefix (with distinct names only up to maxAll identities)
+							out = append(out, smallCase(n, edges, assign, layout, naming, 1))
+						}
 					}
 				}
 			}
@@ -619,7 +627,8 @@ func genRandom(rng *rand.Rand, idx int) tcase {
 	var roots []*gRoot
 	group := []int{}
 	for m := 0; m < nMods; m++ {
-		r := &gRoot{Name: fmt.Sprintf("m%d", m), Prefix: fmt.Sprintf("x%d", m)}
+		// own prefixes from a pool of two: different modules often declare the same prefix (legal)
+		r := &gRoot{Name: fmt.Sprintf("m%d", m), Prefix: fmt.Sprintf("x%d", rng.Intn(2))}
 		if rng.Intn(3) == 0 {
 			r.Revisions = []string{fmt.Sprintf("2020-01-0%d", 1+rng.Intn(3))}
 			if rng.Intn(3) == 0 {
@@ -671,6 +680,9 @@ func genRandom(rng *rand.Rand, idx int) tcase {
 		var name string
 		for try := 0; ; try++ {
 			name = namePool[rng.Intn(len(namePool))]
+			if len(ids) > 0 && rng.Intn(3) == 0 {
+				name = ids[rng.Intn(len(ids))].name // equal names in different modules
+			}
 			key := fmt.Sprintf("%d:%s", group[root], name)
 			if group[root] < 0 {
 				key = fmt.Sprintf("r%d:%s", root, name)
@@ -704,12 +716,35 @@ func genRandom(rng *rand.Rand, idx int) tcase {
 				return im.Prefix + ":" + toName
 			}
 		}
-		im := gImport{Name: target.Name, Prefix: prefixPool[rng.Intn(len(prefixPool))]}
-		switch rng.Intn(30) {
+		// import prefixes are chosen independently of the own prefixes; legal by default: not the
+		// importer's own prefix, not a prefix the importer already uses
+		legal := func(p string) bool {
+			if p == fr.Prefix {
+				return false
+			}
+			for _, o := range fr.Imports {
+				if o.Prefix == p {
+					return false
+				}
+			}
+			return true
+		}
+		im := gImport{Name: target.Name, Prefix: fmt.Sprintf("i%d", len(fr.Imports))}
+		if rng.Intn(4) == 0 && legal(target.Prefix) {
+			im.Prefix = target.Prefix // the customary choice
+		} else {
+			for _, k := range rng.Perm(len(prefixPool)) {
+				if legal(prefixPool[k]) {
+					im.Prefix = prefixPool[k]
+					break
+				}
+			}
+		}
+		switch rng.Intn(40) { // rarely an illegal clash, to see that Go and model agree there too
 		case 0:
 			im.Prefix = fr.Prefix // clashes with the own prefix: the own module wins
 		case 1:
-			im.Prefix = target.Prefix
+			im.Prefix = prefixPool[rng.Intn(len(prefixPool))] // perhaps used already: the first import wins
 		}
 		if len(target.Revisions) > 0 && rng.Intn(2) == 0 {
 			im.RevDate = target.Revisions[0]
@@ -862,6 +897,10 @@ func seedCases() []tcase {
 			`module c { namespace "urn:c"; prefix c; revision 2021-02-02; identity t; }`),
 		mk("identity written twice",
 			`module a { namespace "urn:a"; prefix a; identity x; identity y { base x; } identity x { base y; } }`),
+		mk("two modules with the same own prefix and equal identity names under one ancestor",
+			`module root { namespace "urn:root"; prefix r; identity ROOT; }`,
+			`module alpha { namespace "urn:alpha"; prefix x; import root { prefix r; } import beta { prefix b; } identity KIND { base r:ROOT; } identity ALPHA-ONLY { base r:ROOT; } identity A2 { base b:KIND; } }`,
+			`module beta { namespace "urn:beta"; prefix x; import root { prefix r; } import alpha { prefix a; } identity KIND { base r:ROOT; } identity BETA-ONLY { base KIND; } identity B2 { base a:KIND; } leaf l { type identityref { base r:ROOT; } } }`),
 		mk("two revisions of one module",
 			`module m { namespace "urn:m"; prefix m; revision 2019-01-01; identity a; identity x { base a; } }`,
 			`module m { namespace "urn:m"; prefix m; revision 2020-01-01; identity a; identity y { base a; } }`,
@@ -985,6 +1024,7 @@ func main() {
 		}
 	}
 	flag.Bool("child", false, "internal: run as Go-side worker")
+	streams := flag.String("streams", "all", "diagnosis: all | random (skip corpus, seeds and the small-graph enumeration)")
 	f := lib.ParseFlags()
 	if f.Replay != "" {
 		replay(f)
@@ -1120,7 +1160,9 @@ func main() {
 	first := append(corpusCases("corpus/C11"), seedCases()...)
 	nSeed := len(first)
 	small := enumerateSmall(3, 4, nil)
-	processBatch(append(first, small...))
+	if *streams != "random" {
+		processBatch(append(first, small...))
+	}
 
 	// ---- seeded random schemas, in batches (bounded memory)
 	nRandom := 24000
@@ -1144,7 +1186,7 @@ func main() {
 	res.Evaluations = nCases
 	res.DistinctNontrivial = nNontrivial
 	res.Exhaustive = true
-	res.Rule = "source sets = corpus + seed witnesses + COMPLETE enumeration of small graphs (all directed graphs incl. self-loops on <= 3 identities and all DAGs on 4 identities; every assignment of the identities to two roots; roots = two modules importing each other | module + included submodule; distinct names | equal names across the two modules; bases written with and without prefix; one identityref leaf) + seeded random schemas (1-3 modules, 0-3 submodules included directly / by another submodule / by a foreign module / by nobody / belonging to an absent module, include cycles, 1-12 identities with 0-3 bases, names from a pool with upper/lower case and punctuation, arbitrary and clashing import prefixes, revisions and revision-dates, cycles, dangling and unknown-prefix bases, duplicate statements, missing imports/includes, identityref leaves). Every set: several fresh Modules under permuted load orders, all Go results must be equal; Go result = model result (under two map-order oracles); specification evaluated on the Go result. exhaustive refers to the small-graph space. distinct_nontrivial = distinct source sets whose Go result has an identity with a non-empty list or an identity/cycle error"
+	res.Rule = "source sets = corpus + seed witnesses + COMPLETE enumeration of small graphs (all directed graphs incl. self-loops on <= 3 identities and all DAGs on 4 identities; every assignment of the identities to two roots; roots = two modules importing each other | module + included submodule; distinct names | equal names across the two modules; the two modules with different | the same own prefix; bases written with and without prefix; one identityref leaf) + seeded random schemas (1-3 modules, 0-3 submodules included directly / by another submodule / by a foreign module / by nobody / belonging to an absent module, include cycles, 1-12 identities with 0-3 bases, names from a pool with upper/lower case and punctuation, own prefixes from a pool of two (modules often share one), import prefixes independent and legal by default, rarely clashing, names reused across modules, revisions and revision-dates, cycles, dangling and unknown-prefix bases, duplicate statements, missing imports/includes, identityref leaves). Every set: several fresh Modules under permuted load orders, all Go results must be equal; Go result = model result (under two map-order oracles); specification evaluated on the Go result. exhaustive refers to the small-graph space. distinct_nontrivial = distinct source sets whose Go result has an identity with a non-empty list or an identity/cycle error"
 	res.Distribution["by_generator"] = tags
 	res.Distribution["go_outcomes"] = outcomes
 	res.Distribution["seed_and_corpus_cases"] = nSeed
